@@ -64,6 +64,48 @@ class StarterFacts:
                     self.spawns.append((n, call))
 
 
+def _only_idle_children_skipped(ctx, an, sf, starter, cfg, head, sn, tgt, be) -> bool:
+    """A child may bypass the spawn only where it is known to have nothing to run - no children
+    of its own and neither prepare() nor start() overridden - and is marked started there."""
+    from ..facts import Facts
+
+    a = ctx.a
+    child = tgt.elts[-1].id if isinstance(tgt, ast.Tuple) and isinstance(tgt.elts[-1], ast.Name) else (tgt.id if isinstance(tgt, ast.Name) else None)
+    if child is None:
+        return False
+    normal = lambda s_, d_, lab: lab not in ("e", "h")  # noqa: E731
+    body = cfg.reach(be, avoid=[head.id], edge_ok=normal)
+    after_spawn = cfg.reach([sn.id], avoid=[head.id], edge_ok=normal)
+    bypass = [cfg.nodes[i] for i in body if i != sn.id and i not in after_spawn and sn.id not in cfg.reach([i], avoid=[head.id], edge_ok=normal)]
+    if not bypass or cfg.exit in cfg.reach(be, avoid=[head.id, sn.id], edge_ok=normal):
+        return False
+    facts = Facts(a, starter, sf.rd)
+    wrapped = an.wrapped_component_attr if hasattr(an, "wrapped_component_attr") else "_component"
+    entry_nodes = [n for n in bypass if any(p_ not in {b.id for b in bypass} for p_, _l in n.pred)]
+    cls_text = f"type({child}.{wrapped})"
+    for n in entry_nodes:
+        # spellings of "the child's component class" at this point: the expression itself or a
+        # local that holds it
+        spellings = [cls_text]
+        for x in walk_own(starter.node):
+            if isinstance(x, ast.Assign) and len(x.targets) == 1 and isinstance(x.targets[0], ast.Name) and ast.unparse(x.value) == cls_text:
+                v = x.targets[0].id
+                defs = sf.rd.at(n.id, v)
+                if defs and all((sf.rd.def_info(d, v) or (None, None))[1] is not None and ast.unparse(sf.rd.def_info(d, v)[1]) == cls_text for d in defs):
+                    spellings.append(v)
+        if not facts.implied(n.id, ast.parse(f"{child}.{an.children_attr}", mode="eval").body, False, within=[head.id]):
+            return False
+        for meth in ("prepare", "start"):
+            if not any(facts.implied(n.id, ast.parse(f"{sp}.{meth} is Component.{meth}", mode="eval").body, True, within=[head.id]) for sp in spellings):
+                return False
+    # marked as started on the bypass
+    marks = [n for n in bypass if n.kind == "stmt" and isinstance(n.ast, ast.Assign) and any(isinstance(t, ast.Attribute) and dotted(t.value) == child for t in n.ast.targets) and "started" in ast.unparse(n.ast.value)]
+    if not marks:
+        return False
+    ctx.rep.note(f"C05.R3: children bypassing the spawn are only those with no children and no prepare()/start() of their own ({len(entry_nodes)} bypass entry node(s))")
+    return True
+
+
 def run(ctx) -> None:
     rep = ctx.rep
     a = ctx.a
@@ -145,7 +187,9 @@ def run(ctx) -> None:
                 rep.check("C05.R3", not cps, starter, lp, "no checkpoint inside the spawning loop: every sibling is scheduled before any of them runs", f"checkpoint in the spawning loop ({cps[0] if cps else ''})")
                 be = [d for d, lab in head.succ if lab == "t"]
                 ok = bool(be) and cfg.all_paths_pass(be[0], [head.id], [sn.id], edge_ok=normal) and cfg.exit not in cfg.reach(be, avoid=[head.id, sn.id], edge_ok=normal)
-                rep.check("C05.R3", ok, starter, scall, "every iteration spawns its child (no child is skipped)", "some children are skipped by the spawning loop (conditional spawn / continue): their prepare()/start() and their whole subtree never run")
+                if not ok and be:
+                    ok = _only_idle_children_skipped(ctx, an, sf, starter, cfg, head, sn, tgt, be)
+                rep.check("C05.R3", ok, starter, scall, "every iteration spawns its child (no child is skipped - except children that provably have nothing to run)", "some children are skipped by the spawning loop (conditional spawn / continue): their prepare()/start() and their whole subtree never run")
                 # the child's context is what is passed
                 lv = {x.id for x in ast.walk(tgt) if isinstance(x, ast.Name)}
                 rep.check("C05.R3", len(scall.args) >= 2 and isinstance(scall.args[1], ast.Name) and scall.args[1].id in lv, starter, scall, "each spawned starter receives its own child context", "the spawned task does not get the child's context")
